@@ -59,6 +59,27 @@ pub fn exec(tok: &[&str]) -> String {
             ints(&vh::felt_ifft(&vh::felt_hadamard_mul(&a, &b)))
         }
         "ref_negacyc" => ints(&crate::c11::schoolbook(&parse_ints::<u64>(tok[1]), &parse_ints::<u64>(tok[2]))),
+        // ---- verify through the public API (C02, C03) --------------------------------------------------
+        "verify" => {
+            let (m, sg, pk) = (unhex(tok[2]), unhex(tok[3]), unhex(tok[4]));
+            match tok[1] {
+                "512" => {
+                    use falcon_rust::falcon512 as f;
+                    match (f::Signature::from_bytes(&sg), f::PublicKey::from_bytes(&pk)) {
+                        (Ok(s), Ok(p)) => f::verify(&m, &s, &p).to_string(),
+                        _ => "Undecodable".to_string(),
+                    }
+                }
+                "1024" => {
+                    use falcon_rust::falcon1024 as f;
+                    match (f::Signature::from_bytes(&sg), f::PublicKey::from_bytes(&pk)) {
+                        (Ok(s), Ok(p)) => f::verify(&m, &s, &p).to_string(),
+                        _ => "Undecodable".to_string(),
+                    }
+                }
+                _ => panic!("bad-op"),
+            }
+        }
         // ---- hash to point (C14) -------------------------------------------------------------------
         "hash_to_point" => ints(&vh::hash_to_point(&unhex(tok[2]), tok[1].parse().unwrap())),
         _ => panic!("bad-op {}", tok[0]),
